@@ -603,6 +603,11 @@ impl<Writer: Write> Mp4Writer<Writer> {
 
                 let raw = adts_to_raw(data)
                     .map_err(|e| Mp4WriterError::InvalidAdtsDetailed(Box::new(e)))?;
+                if raw.is_empty() {
+                    // Header only: there is no AAC payload to store, and an empty
+                    // sample would trip INV-004 when the tables are built.
+                    return Err(Mp4WriterError::InvalidAdts);
+                }
                 raw.to_vec()
             }
             AudioCodec::Opus => {
